@@ -555,16 +555,16 @@ func (f *c06Fix) buildCrafted(o c06Offer, idx int, pool []vdTx) c06Sub {
 		}
 		s.data = []byte(c06B64(seg) + "." + c06B64(b.phashHex()) + "." + c06B64(sig))
 	case "b64-trailing-bits":
-		// same octets, other final base64url character (non-zero padding bits) in the signature segment
+		// same octets, other final base64url character (non-zero padding bits) in the payload segment (64 octets: 4 spare bits)
 		const abc = "ABCDEFGHIJKLMNOPQRSTUVWXYZabcdefghijklmnopqrstuvwxyz0123456789-_"
-		t := seal()
-		if i := strings.IndexByte(abc, t[len(t)-1]); i >= 0 && len(validSig())%3 != 0 {
-			t[len(t)-1] = abc[i|1]
-			if t[len(t)-1] == abc[i] {
-				t[len(t)-1] = abc[i|2]
+		parts := strings.Split(string(seal()), ".")
+		if p := []byte(parts[1]); len(p) > 0 {
+			if i := strings.IndexByte(abc, p[len(p)-1]); i >= 0 {
+				p[len(p)-1] = abc[i|(1+k%15)]
 			}
+			parts[1] = string(p)
 		}
-		s.data = t
+		s.data = []byte(strings.Join(parts, "."))
 	case "ws-leading":
 		s.data = append([]byte("\n  "), seal()...)
 	case "ws-trailing":
